@@ -1,4 +1,6 @@
-//! The repository's two generator programs, compiled unmodified from /repo's working tree.
+//! The repository's two generator programs, compiled from /repo's working tree (copied by build.rs,
+//! which only neutralises crate-level inner doc comments / inner attributes that `include!` cannot
+//! carry into a module).
 //! Inside these modules the name `std` resolves to the simulator's shadow (see seams.rs) and
 //! `println!`/`print!` write to the run's captured stdout.
 
@@ -20,9 +22,9 @@ pub mod layout {
         ("CARGO_MANIFEST_DIR") => { "/repo/unic-langid-impl" };
         ($($t:tt)*) => { ::core::env!($($t)*) };
     }
-    include!("/repo/unic-langid-impl/src/bin/generate_layout.rs");
+    include!(concat!(env!("OUT_DIR"), "/generate_layout.rs"));
     pub fn run() {
-        main()
+        super::MainReturn::finish(main())
     }
 }
 
@@ -44,8 +46,24 @@ pub mod likely {
         ("CARGO_MANIFEST_DIR") => { "/repo/unic-langid-impl" };
         ($($t:tt)*) => { ::core::env!($($t)*) };
     }
-    include!("/repo/unic-langid-impl/src/bin/generate_likelysubtags.rs");
+    include!(concat!(env!("OUT_DIR"), "/generate_likelysubtags.rs"));
     pub fn run() {
-        main()
+        super::MainReturn::finish(main())
+    }
+}
+
+/// What `fn main()` may return (`()` or `Result<(), E>`): an `Err` ends the process with a
+/// failure status in reality, so it ends the simulated run as a failure.
+pub trait MainReturn {
+    fn finish(self);
+}
+impl MainReturn for () {
+    fn finish(self) {}
+}
+impl<E: std::fmt::Debug> MainReturn for Result<(), E> {
+    fn finish(self) {
+        if let Err(e) = self {
+            panic!("main returned Error: {:?}", e);
+        }
     }
 }
